@@ -136,6 +136,65 @@ func Gen(r *hx.Rand, engine string, malformed bool) Case {
 	return c
 }
 
+// GenDirected draws one case of the DIRECTED family "cancel in the middle of a fan-out":
+// M in {2,3} destinations whose Write gates stay closed from their HoldFrom-th write on
+// until the run has gone idle and the context was cancelled; only then is everything
+// released.
+//
+// v1: EVERY destination is held. Each branch then backs up completely (DestinationNode
+// blocked in Write, its MetricsNode holds the next clone) and the clones of the next record
+// stay inside FanoutNode's goroutines, which cannot hand them over. (Holding only some
+// branches cannot expose a wrongly settled clone: a DestinationAckerNode worker waits inside
+// the fan-out ack handler of the first record another branch has not settled, so it never
+// gets to the later record.) Three sources emit single records in rounds (later rounds are
+// read only when nothing else can move), so the record stuck inside the fan-out is the first
+// unacked record of ITS source: whatever the engine does to the records of the other two
+// sources (their nacks cannot reach the DLQ after the cancel and set those sources' fail
+// latches), an ack for the stuck record would reach its source and be observed.
+// v2: one destination is held, so the cancel lands while that branch is parked inside
+// Destination.Write and the other branches have voted.
+// round = which round of records is cut.
+func GenDirected(r *hx.Rand, engine string) Case {
+	c := Case{Engine: engine, GoMaxProcs: []int{1, 2, 4, 16}[r.Intn(4)], Collide: r.Chance(1, 3)}
+	round := r.Intn(3)
+	nsrc := 3
+	if engine == "v2" {
+		nsrc = r.Range(1, 3)
+	}
+	for s := 0; s < nsrc; s++ {
+		ss := SrcSpec{SlowRead: true, SlowAck: r.Bool()}
+		for b := 0; b <= round+r.Intn(2); b++ {
+			ss.Batches = append(ss.Batches, 1)
+		}
+		if engine == "v2" && r.Bool() {
+			ss.Batches[len(ss.Batches)-1] = r.Range(2, 4)
+		}
+		c.Sources = append(c.Sources, ss)
+	}
+	ndst := r.Range(2, 3)
+	c.Dests = make([]DstSpec, ndst)
+	if engine == "v2" {
+		held := r.Intn(ndst)
+		c.Dests[held].Hold = true
+		c.Dests[held].HoldFrom = round
+	} else {
+		for d := range c.Dests {
+			c.Dests[d].Hold = true
+			c.Dests[d].HoldFrom = nsrc * round
+		}
+	}
+	for d := range c.Dests {
+		if r.Bool() {
+			c.Dests[d].Chunks = []int{r.Range(1, 2)}
+		}
+	}
+	for i := 0; i < 48; i++ {
+		c.Sched = append(c.Sched, r.Intn(1<<13)*8+r.Intn(7)) // never the "also slow gates" choice
+	}
+	c.Ctl = &CtlSpec{Kind: "cancel", At: 1 << 20} // fires when the run has gone idle
+	return c
+}
+
 // Run dispatches on the engine.
 func Run(c Case, deadline time.Duration) Obs {
 	if c.Engine == "v1" {
